@@ -319,7 +319,7 @@ func tsChild(spec string) {
 		var wantNames []string
 		for _, r := range reqs {
 			if r.out.Status == 200 {
-				wantNames = append(wantNames, fmt.Sprintf("%s|%s|%s|%s", r.o.Name, targetOf(r.o.Key), map[string]string{"sha256": "SHA-256", "sha384": "SHA-384", "sha512": "SHA-512"}[r.o.Digest], clients[r.o.Client].Nickname))
+				wantNames = append(wantNames, wantAuditLine(r.o))
 			}
 		}
 		sort.Strings(names)
